@@ -39,6 +39,8 @@ fn placements(pl: &Plain, thorough: bool) -> Vec<(f64, String)> {
         if h.abs() > 1e-7 && k + 1 < n {
             v.push((pl.xs[k + 1] + 1e-9, format!("x{}+1e-9", k + 1)));
             v.push((pl.xs[k + 1] - 1e-9, format!("x{}-1e-9", k + 1)));
+            // exactly on a step boundary: an exact zero of t-c at an accepted endpoint
+            v.push((pl.xs[k + 1], format!("x{} exactly", k + 1)));
         }
     }
     let (lo, hi) = (pl.xs[0].min(pl.xs[n]), pl.xs[0].max(pl.xs[n]));
@@ -225,6 +227,26 @@ fn c09(s: &Solution, grid: &[(f64, Vec<f64>)], specs: &[EventSpec], dir: f64, kn
                     }
                 }
                 Cls::Free => tags.push("exact-zero-at-endpoint"),
+            }
+        }
+        // an exact zero at an interior endpoint with strict opposite signs on both sides must be
+        // reported from one of the two adjacent steps (or from both): never from neither
+        for k in 1..m - 1 {
+            if g[k] == 0.0 && g[k - 1] * g[k + 1] < 0.0 {
+                let rising = g[k + 1] > g[k - 1];
+                let wanted = match sp.dir {
+                    Direction::All => true,
+                    Direction::Positive => rising,
+                    Direction::Negative => !rising,
+                };
+                let c = count[k - 1] + count[k];
+                tags.push("exact-zero-crossing");
+                if wanted && c == 0 {
+                    v.push(("missed-exact-zero".into(), format!("event {}: g is exactly zero at the accepted endpoint {:e} with opposite signs on both sides (g={:e},0,{:e}) but no event was reported in the two adjacent steps", i, gt[k], g[k - 1], g[k + 1])));
+                }
+                if c > 2 || (!wanted && c > 0) {
+                    v.push(("spurious".into(), format!("event {}: {} events around the exact zero at {:e} (direction filter {:?})", i, c, gt[k], sp.dir)));
+                }
             }
         }
         if (0..m - 1).filter(|&k| cls[k] == Cls::Expect).count() >= 2 {
@@ -554,6 +576,7 @@ pub fn run_check(mode: Mode, replay: Option<Value>) -> i32 {
             rep.require("several-crossings", 10);
             rep.require("multi-event", 10);
             rep.require("single-root-checked", 100);
+            rep.require("exact-zero-crossing", 100);
             rep.rule = "same lattice as C08; the event functions are evaluated by the harness at every pair of consecutive accepted endpoints of the run: strict opposite signs in the configured direction <=> exactly one event in that step, same strict sign => none (exact zeros excluded); ±(t-c): exactly one event within 2e-11 of c".into();
         }
         Mode::C10 => {
